@@ -232,6 +232,8 @@ pub struct Prov {
     /// readiness left over from before this provider was handed to the verifier (a pool with connections already checked
     /// out, a rate limiter with slots left in its window): that many un-announced calls still succeed, later ones do not
     spare_ready: u8,
+    /// real time the provider takes to answer (a key store across the network), in milliseconds
+    pub answer_sleep_ms: u64,
 }
 
 impl Prov {
@@ -243,6 +245,7 @@ impl Prov {
             ready_left: rl,
             ready_ok: false,
             spare_ready: 0,
+            answer_sleep_ms: 0,
         }
     }
 
@@ -342,6 +345,9 @@ impl tower::Service<GetSigningKeyRequest> for Prov {
                 },
             }
         };
+        if self.answer_sleep_ms > 0 {
+            std::thread::sleep(std::time::Duration::from_millis(self.answer_sleep_ms));
+        }
         ProvFut {
             left: self.script.ans_pending,
             result: Some(result),
